@@ -115,4 +115,4 @@ for _spec in [x for x in dcspec.SPECS if x != 'aliaserr']:     # (aliaserr serve
 # ------------------------------------------------------------------ 'optional fields take a fresh copy of their default'
 from vt import defaults_h  # noqa: E402
 
-ob('fresh-defaults', marks=['schema', 'function', 'forced'], budget=(60, 200), bounds=defaults_h.BOUNDS)(defaults_h.defaults)
+ob('fresh-defaults', marks=['schema', 'function', 'forced', 'instance-default'], budget=(60, 200), bounds=defaults_h.BOUNDS)(defaults_h.defaults)
